@@ -20,7 +20,7 @@ func TestVerifC04Conc(t *testing.T) {
 		"and range keys (and each must be batch-atomic). Seeded yields at the commit-pipeline and newIter hook sites widen the window between " +
 		"sequence-number allocation, memtable application and publication. distinct_nontrivial = runs x stability checks (bucketed).")
 	ys := &yieldStats{hits: map[string]int64{}}
-	n := vcommon.Scale(6, 160)
+	n := vcommon.Scale(6, 90)
 	R.Cases(n, func(i int, rng *rand.Rand) {
 		restore := installYields(vcommon.Seed()*104729+uint64(i), ys)
 		defer restore()
